@@ -313,7 +313,7 @@ def make_case(rng, cls, k, npart, tier, tiny=False):
 
 
 def run(chk, drv, rng, tier):
-    reps = 1 if tier == 'quick' else 6
+    reps = 1 if tier == 'quick' else 5
     cells = set()
     count = 0
     for rep in range(reps):
